@@ -189,8 +189,8 @@ Listing ==
      ELSE IF Ev.quiescent /\ d = dir /\ ~T.freq0 /\ Len(Ev.tmp) > 0 /\ ~T.hadcrash
        THEN Reject("C12", "listing: temporary directory left behind after pending writes finished")
      \* (a process killed while its solver was being constructed - before the first save - may leave the directory
-     \* without the file: the file is demanded once pending writes have finished or a checkpoint exists)
-     ELSE IF ~T.freq0 /\ d = 1 /\ ((Ev.cfg /\ ~T.fullconfig) \/ (~Ev.cfg /\ T.fullconfig /\ (Ev.quiescent \/ fin # {})))
+     \* without the file: the file is demanded when a live solver has finished its pending writes, or a checkpoint exists)
+     ELSE IF ~T.freq0 /\ d = 1 /\ ((Ev.cfg /\ ~T.fullconfig) \/ (~Ev.cfg /\ T.fullconfig /\ ((Ev.quiescent /\ iter >= 0) \/ fin # {})))
        THEN Reject("C12", "configuration file present exactly when solver and problem are reconstructible")
      ELSE IF durable > 0 /\ d = dir /\ (fin = {} \/ SetMax(fin) < durable)
        THEN Reject("C11", "durability: the latest committed step is older than a save that had completed")
